@@ -179,6 +179,20 @@ func decorations(op *Op, withArgs bool) []Dec {
 			}
 		}
 	}
+	// self-aliased twin
+	for _, s := range sets {
+		for _, n := range *s.Sel {
+			if n.K != 'f' || n.Alias != "" {
+				continue
+			}
+			for _, f := range selfTwinForms {
+				if strings.HasPrefix(f, "split") && len(n.Sel) < 2 {
+					continue
+				}
+				out = append(out, Dec{Kind: "selftwin", ID: n.ID, Form: f})
+			}
+		}
+	}
 	// fragment structure in place
 	for _, s := range sets {
 		sel := *s.Sel
@@ -375,6 +389,116 @@ func hasIntArgX(t string, n *Node) bool {
 	return fd != nil && len(fd.Args) > 0 && fd.Args[0].Name == "x" && fd.Args[0].Type == "Int"
 }
 
+// ---- several directives on one node ("mdir", judged as a single decoration only)
+//
+// Form = "<where>/<sibling>/<atom,atom[,atom]>"
+//
+//	where    on      the directives sit on the node itself (field, inline fragment)
+//	         spread  the field is wrapped in a named fragment, the directives sit on the spread
+//	         inl     the field is wrapped in `... <directives> { field }`
+//	sibling  none | rem | keep : a new FIRST root selection `zs: __typename @skip(if: true|false)`,
+//	         whose directive is the first directive of the whole document and evaluates to remove / keep
+//	atoms    sT sF iT iF      @skip / @include with a literal
+//	         svT svF ivT ivF  the same through a Boolean! variable with that value
+//	         tg               the custom directive @tag(name: "x")
+var mdirAtoms = []string{"tg", "sF", "iT", "sT", "iF", "svF", "ivT", "svT", "ivF"} // simplest first
+
+func mdirName(atom string) string {
+	switch atom[0] {
+	case 's':
+		return "skip"
+	case 'i':
+		return "include"
+	}
+	return "tag"
+}
+
+// mdirEffect: what the directive evaluates to.
+func mdirEffect(atom string) string {
+	switch atom {
+	case "tg":
+		return "custom"
+	case "sT", "svT", "iF", "ivF":
+		return "remove"
+	}
+	return "keep"
+}
+
+// mdirSequences: all orders of 2 and 3 atoms with at most one @skip and one @include
+// and one @tag.
+func mdirSequences() [][]string {
+	var out [][]string
+	var rec func(cur []string)
+	rec = func(cur []string) {
+		if len(cur) >= 2 {
+			out = append(out, append([]string(nil), cur...))
+		}
+		if len(cur) == 3 {
+			return
+		}
+		for _, a := range mdirAtoms {
+			n := 0
+			for _, c := range cur {
+				if mdirName(c) == mdirName(a) {
+					n++
+				}
+			}
+			if n >= 1 {
+				continue
+			}
+			rec(append(cur, a))
+		}
+	}
+	rec(nil)
+	return out
+}
+
+var mdirSeqs = mdirSequences()
+
+func parseMdir(form string) (where, sib string, atoms []string, ok bool) {
+	p := strings.Split(form, "/")
+	if len(p) != 3 || p[2] == "" {
+		return "", "", nil, false
+	}
+	return p[0], p[1], strings.Split(p[2], ","), true
+}
+
+// singleDecorations: decorations that are enumerated only as the single decoration
+// of a base (never as a member of a pair): 2 and 3 directives in every order on every
+// node of the bases with <= 2 selections and on the type-conditioned inline fragments
+// of the bases with 3 selections, x the three siblings.
+func singleDecorations(op *Op) []Dec {
+	var out []Dec
+	nc := op.nodeCount()
+	if nc > 3 {
+		return nil
+	}
+	for _, s := range op.sets() {
+		for _, n := range *s.Sel {
+			var wheres []string
+			switch {
+			case n.K == 'f' && nc <= 2:
+				wheres = []string{"on", "spread", "inl"}
+			case n.K == 'i' && nc <= 3:
+				wheres = []string{"on"}
+			}
+			for _, w := range wheres {
+				for _, sib := range []string{"none", "rem", "keep"} {
+					for _, seq := range mdirSeqs {
+						out = append(out, Dec{Kind: "mdir", ID: n.ID, Form: w + "/" + sib + "/" + strings.Join(seq, ",")})
+					}
+				}
+			}
+		}
+	}
+	return out
+}
+
+// selfTwinForms: a field next to a copy of itself, ONE of the two written with a self
+// alias (`x: x`), the copy directly behind it / in an inline fragment / in a named
+// fragment; "split": the two halves of a composite field's selection instead of two copies.
+var selfTwinForms = []string{"direct-orig", "direct-copy", "inl-orig", "inl-copy", "frag-orig", "frag-copy", "split-orig", "split-copy"}
+
 // absFragForms: `... on I { id ... on A { zk: k } ... on B { b } }` (inline / named fragment,
 // on the interface I / on the union U, both orders of the nested fragments), simplest first.
 var absFragForms = []string{"inlIAB", "inlIBA", "fragIAB", "fragIBA", "inlUAB", "inlUBA", "fragUAB", "fragUBA"}
@@ -500,6 +624,121 @@ func apply(op *Op, d Dec) bool {
 		ns = append(ns, sel[j+1:]...)
 		*set.Sel = ns
 		op.Frags = append(op.Frags, newFrags...)
+		return true
+	case "selftwin":
+		n, set, idx := op.find(d.ID)
+		if n == nil || n.K != 'f' || n.Alias != "" {
+			return false
+		}
+		p := strings.Split(d.Form, "-")
+		if len(p) != 2 {
+			return false
+		}
+		c := n.clone()
+		reID(op, c)
+		if p[0] == "split" {
+			if len(n.Sel) < 2 {
+				return false
+			}
+			c.Sel = c.Sel[1:]
+			n.Sel = n.Sel[:1]
+		}
+		switch p[1] {
+		case "orig":
+			n.Alias = n.Name
+		case "copy":
+			c.Alias = c.Name
+		default:
+			return false
+		}
+		w := c
+		var nf []Frag
+		switch p[0] {
+		case "direct", "split":
+		case "inl":
+			w = &Node{ID: op.newID(), K: 'i', Sel: []*Node{c}}
+		case "frag":
+			name := fmt.Sprintf("F%d", len(op.Frags)+1)
+			w = &Node{ID: op.newID(), K: 's', Name: name}
+			nf = append(nf, Frag{N: name, Cond: set.Type, Sel: []*Node{c}})
+		default:
+			return false
+		}
+		sel := *set.Sel
+		ns := append([]*Node(nil), sel[:idx+1]...)
+		ns = append(ns, w)
+		ns = append(ns, sel[idx+1:]...)
+		*set.Sel = ns
+		op.Frags = append(op.Frags, nf...)
+		return true
+	case "mdir":
+		where, sib, atoms, ok := parseMdir(d.Form)
+		if !ok {
+			return false
+		}
+		n, set, idx := op.find(d.ID)
+		if n == nil || n.K == 's' || len(n.Dirs) > 0 {
+			return false
+		}
+		if where != "on" && n.K != 'f' {
+			return false
+		}
+		var dirs []Dir
+		for _, a := range atoms {
+			known := false
+			for _, k := range mdirAtoms {
+				if k == a {
+					known = true
+				}
+			}
+			if !known {
+				return false
+			}
+			val := strings.HasSuffix(a, "T")
+			switch {
+			case a == "tg":
+				dirs = append(dirs, Dir{N: "tag", A: "name", If: vStr("x")})
+			case len(a) == 2:
+				dirs = append(dirs, Dir{N: mdirName(a), If: vBool(val)})
+			default:
+				vn := fmt.Sprintf("%s%d", map[string]string{"skip": "sk", "include": "in"}[mdirName(a)], n.ID)
+				if op.hasVar(vn) {
+					return false
+				}
+				op.addVar(VarDef{N: vn, T: "Boolean!"}, true, val)
+				dirs = append(dirs, Dir{N: mdirName(a), If: vVar(vn)})
+			}
+		}
+		switch where {
+		case "on":
+			n.Dirs = dirs
+		case "spread", "inl":
+			sel := *set.Sel
+			var w *Node
+			var nf []Frag
+			if where == "inl" {
+				w = &Node{ID: op.newID(), K: 'i', Dirs: dirs, Sel: []*Node{n}}
+			} else {
+				name := fmt.Sprintf("F%d", len(op.Frags)+1)
+				w = &Node{ID: op.newID(), K: 's', Name: name, Dirs: dirs}
+				nf = append(nf, Frag{N: name, Cond: set.Type, Sel: []*Node{n}})
+			}
+			ns := append([]*Node(nil), sel[:idx]...)
+			ns = append(ns, w)
+			ns = append(ns, sel[idx+1:]...)
+			*set.Sel = ns
+			op.Frags = append(op.Frags, nf...)
+		default:
+			return false
+		}
+		switch sib {
+		case "none":
+		case "rem", "keep":
+			zs := &Node{ID: op.newID(), K: 'f', Alias: "zs", Name: "__typename", Dirs: []Dir{{N: "skip", If: vBool(sib == "rem")}}}
+			op.Sel = append([]*Node{zs}, op.Sel...)
+		default:
+			return false
+		}
 		return true
 	case "twin":
 		if d.Val >= len(twinMenu) {
@@ -909,7 +1148,7 @@ func reID(op *Op, n *Node) {
 // canon classifies a decoration for clause 4 (see Dec).
 func (d Dec) canon() string {
 	switch d.Kind {
-	case "dup", "wrap", "rename":
+	case "dup", "wrap", "rename", "selftwin":
 		return "pure"
 	case "arg":
 		switch d.Form {
